@@ -230,6 +230,9 @@ func genCommon(t *rapid.T, s *rt.Spec, o GenOpts) {
 	if !o.ModSubset && prob(t, "emitters", o.PEmitters) {
 		s.Emitters = 1 + uniform(t, "nemit", 3)
 		s.EmitNest = s.Emitters >= 2 && prob(t, "emitnest", 0.5)
+		if prob(t, "emitshared", 0.2) {
+			s.Emitters, s.EmitShared, s.EmitNest = 4, true, false
+		}
 		s.InstrumentD = prob(t, "instrd", o.PInstrD)
 		for i := range s.Tasks {
 			s.Tasks[i].Instrument = prob(t, "instr", o.PInstrument)
